@@ -553,6 +553,22 @@ Proof.
   destruct (Hev e Hl) as [Hg Hi]. apply (rule_ops_spec _ _ _ Hops). exists e, os. auto.
 Qed.
 
+Lemma rule_fire1 d r ops F o :
+  rule_ops d r = Ok ops -> Forall (atom_satF d F) (rbody r) ->
+  (forall e, (forall x, In x (body_vars (rbody r)) -> lookup e x = F x) ->
+     guards_ok e (rguards r) = Some true /\ exists os, inst_acts e (racts r) = Some os /\ In o os) ->
+  In o ops.
+Proof.
+  intros Hops Hsat Hev.
+  destruct (match_body_completeF d F (rbody r) []) as (e & Hin & Hext); [intros x v H; discriminate|exact Hsat|].
+  destruct (match_body_sound _ _ _ _ Hin) as [_ Hs].
+  assert (Hl : forall x, In x (body_vars (rbody r)) -> lookup e x = F x).
+  { intros x Hx. unfold body_vars in Hx. apply in_flat_map in Hx. destruct Hx as (a & Ha & Hx).
+    rewrite Forall_forall in Hs. destruct (Hs a Ha) as (r' & _ & Hm).
+    destruct (map_lookup_bound _ _ _ Hm x Hx) as (v & Hv). rewrite Hv. symmetry. apply Hext. exact Hv. }
+  destruct (Hev e Hl) as [Hg (os & Hi & Ho)]. apply (rule_ops_spec _ _ _ Hops). exists e, os. auto.
+Qed.
+
 (** every staged operation comes from a match that satisfies the body *)
 Lemma rule_fired d r ops o : rule_ops d r = Ok ops -> In o ops ->
   exists e os, Forall (atom_sat d e) (rbody r) /\ guards_ok e (rguards r) = Some true /\
